@@ -24,6 +24,9 @@ from .version import DEFAULT_VERSION
 ID_REGEX_interoperability = re.compile(
     r"[0-9a-fA-F]{8}-[0-9a-fA-F]{4}-[0-9a-fA-F]{4}-[0-9a-fA-F]{4}-[0-9a-fA-F]{12}$",
 )
+UUID_CANONICAL_REGEX = re.compile(
+    r"[0-9a-fA-F]{8}-[0-9a-fA-F]{4}-[0-9a-fA-F]{4}-[0-9a-fA-F]{4}-[0-9a-fA-F]{12}",
+)
 TYPE_REGEX = re.compile(r'^-?[a-z0-9]+(-[a-z0-9]+)*-?$')
 TYPE_21_REGEX = re.compile(r'^([a-z][a-z0-9]*)+([a-z0-9-]+)*-?$')
 ERROR_INVALID_ID = (
@@ -44,6 +47,11 @@ def _check_uuid(uuid_str, spec_version, interoperability):
     """
     if interoperability:
         return ID_REGEX_interoperability.match(uuid_str)
+
+    # uuid.UUID() also accepts braces, a "urn:uuid:" prefix and missing
+    # hyphens; STIX identifiers must use the canonical textual form.
+    if not UUID_CANONICAL_REGEX.fullmatch(uuid_str):
+        return False
 
     uuid_obj = uuid.UUID(uuid_str)
 
